@@ -836,3 +836,59 @@ func genC12(t *rapid.T, spec *GenSpec) (*Program, int) {
 	}
 	return p, g.excluded
 }
+
+// ---------------------------------------------------------------
+// C18: read-only programs
+
+func genC18(t *rapid.T, spec *GenSpec) *Program {
+	p := &Program{Prop: "C18"}
+	p.Cfg = genConfig(t, spec)
+	p.Cfg.Backing = "store"
+	p.Cfg.KeepFiles = chance(t, "keepFiles", 50)
+	g := &genState{spec: spec, model: NewNode(), deadKids: map[string]bool{}}
+	g.keys = genKeyPool(t, false, 6)
+	n := rapid.IntRange(1, 14).Draw(t, "nops")
+	for i := 0; i < n; i++ {
+		if pick(t, "op", 60, 40) == 0 {
+			p.Ops = append(p.Ops, Op{Kind: "batch", B: g.nextBatch(t)})
+		} else {
+			p.Ops = append(p.Ops, Op{Kind: "mstep", MKind: mstepKinds[pick(t, "mkind", 60, 20, 20)]})
+		}
+	}
+	x := C18Extra{EarlyClose: chance(t, "early", 25)}
+	tampers := []string{"junk-empty-newer", "junk-garbage-newer", "junk-header-only-newer", "truncated-copy-newer", "tear-newest", "unrelated-file", "old-named-junk"}
+	nt := pick(t, "ntamper", 35, 40, 25)
+	for i := 0; i < nt; i++ {
+		x.Tamper = append(x.Tamper, rapid.SampledFrom(tampers).Draw(t, "tamper"))
+	}
+	x.TearBytes = rapid.SampledFrom([]int{1, 10, 30, 100, 4096, 5000}).Draw(t, "tear")
+	x.TruncFrac = rapid.IntRange(0, 99).Draw(t, "trunc")
+	x.ROCfg = genConfig(t, spec)
+	x.ROCfg.Backing = "store"
+	x.ROCfg.KeepFiles = chance(t, "roKeepFiles", 50)
+	nro := rapid.IntRange(1, 12).Draw(t, "nro")
+	for i := 0; i < nro; i++ {
+		switch pick(t, "ro", 30, 12, 20, 10, 8, 8, 6, 6) {
+		case 0:
+			x.RO = append(x.RO, Op{Kind: "read"})
+		case 1:
+			x.RO = append(x.RO, Op{Kind: "sread"})
+		case 2:
+			x.RO = append(x.RO, Op{Kind: "batch", B: g.nextBatch(t)})
+		case 3:
+			x.RO = append(x.RO, Op{Kind: "notify", MKind: mstepKinds[pick(t, "mkind", 40, 30, 30)]})
+		case 4:
+			x.RO = append(x.RO, Op{Kind: "persist", N: rapid.IntRange(0, 2).Draw(t, "concern")})
+		case 5:
+			x.RO = append(x.RO, Op{Kind: "prev"})
+		case 6:
+			x.RO = append(x.RO, Op{Kind: "closecoll"})
+		case 7:
+			x.RO = append(x.RO, Op{Kind: "closestore"})
+		}
+	}
+	x.RO = append(x.RO, Op{Kind: "read"})
+	b, _ := json.Marshal(&x)
+	p.Extra = b
+	return p
+}
